@@ -302,11 +302,11 @@ fn renko_strategy(max_moves: usize) -> impl Strategy<Value = RenkoCase> {
 pub fn def(tier: Tier) -> PropertyDef {
 	let mut checks: Vec<Box<dyn SubCheck>> = Vec::new();
 	for i in 0..2 {
-		checks.push(pt(&format!("collapse_{i}"), tier.pick(4000, 40000), collapse_strategy(tier.pick(150, 600)), run_collapse));
+		checks.push(pt(&format!("collapse_{i}"), tier.pick(15000, 60000), collapse_strategy(tier.pick(150, 600)), run_collapse));
 	}
 	checks.push(pt("heikin_ashi_valid", tier.pick(4000, 40000), gen::candle_stream(1, 300), run_heikin));
 	for i in 0..6 {
-		checks.push(pt(&format!("renko_{i}"), tier.pick(5000, 60000), renko_strategy(tier.pick(60, 200)), run_renko));
+		checks.push(pt(&format!("renko_{i}"), tier.pick(20000, 100000), renko_strategy(tier.pick(60, 200)), run_renko));
 	}
 	checks.extend(crate::fuzz_entry::corpus_checks("C17"));
 	PropertyDef {
